@@ -63,6 +63,8 @@ type shared struct {
 	solverQ        int64
 	solverT        time.Duration
 	samples        []map[string]any
+	okSamples      []map[string]any
+	okSeen         int64
 	initPol        map[string]string
 	hIcept         map[string]extFn
 	cond           *sync.Cond
@@ -633,6 +635,15 @@ func (ex *Exec) explore(start []decision) {
 				ex.sh.addSample(map[string]any{"outcome": "ok", "decisions": trailString(ex.trail), "inputs": m, "notes": ex.notes})
 			}
 		}
+		if res.kind == "ok" && ex.sh.wantOkSample() {
+			// a complete replay record of a path on which every assertion
+			// was discharged: the check re-runs it natively (engine/real
+			// code agreement).
+			if m, ok := ex.model(nil); ok {
+				covers, _ := ex.extra["covers"].([]string)
+				ex.sh.addOkSample(map[string]any{"vars": m, "choices": fmt.Sprint(ex.sched.choices), "covers": covers})
+			}
+		}
 		if ex.sh.shouldStop() {
 			return
 		}
@@ -725,6 +736,33 @@ func (sh *shared) needSample() bool {
 	sh.mu.Lock()
 	defer sh.mu.Unlock()
 	return len(sh.samples) < 4
+}
+
+// wantOkSample picks ok paths at roughly log-spaced positions (1,2,3,4,6,8,
+// 12,16,...) up to the configured number.
+func (sh *shared) wantOkSample() bool {
+	sh.mu.Lock()
+	defer sh.mu.Unlock()
+	if sh.cfg.OkSamples <= 0 {
+		return false
+	}
+	sh.okSeen++
+	n := sh.okSeen
+	for n%2 == 0 {
+		n /= 2
+	}
+	if n != 1 && n != 3 {
+		return false
+	}
+	return len(sh.okSamples) < sh.cfg.OkSamples
+}
+
+func (sh *shared) addOkSample(s map[string]any) {
+	sh.mu.Lock()
+	defer sh.mu.Unlock()
+	if len(sh.okSamples) < sh.cfg.OkSamples {
+		sh.okSamples = append(sh.okSamples, s)
+	}
 }
 
 func (sh *shared) addSample(s map[string]any) {
